@@ -340,7 +340,12 @@ def run_nets(spec, rec, good):
             check_published(sym, net, P, rec)
         for kind in KINDS:
             L = HLEN[kind]
-            hashes = [bytes(L), b"\xff" * L, bytes(range(L)), b"\x00" * (L - 1) + b"\x01"] + [rbytes(rng, L) for _ in range(16 * scale)]
+            # structured payloads: hashes whose hex spelling looks like something else to a text-based script compiler
+            # (only decimal digits, leading zero digit, only letters, an opcode-like byte run)
+            digit_bytes = [b for b in range(256) if (b >> 4) <= 9 and (b & 15) <= 9]
+            shaped = [b"\x11" * L, b"\x99" * L, bytes([0x12, 0x34, 0x56, 0x78, 0x90] * 8)[:L], bytes(rng.choice(digit_bytes[16:]) for _ in range(L)),
+                      bytes([0x01]) + bytes(rng.choice(digit_bytes) for _ in range(L - 1)), b"\xab" * L, b"\xde\xad\xbe\xef" * (L // 4), b"\x4f\x50" * (L // 2)]
+            hashes = [bytes(L), b"\xff" * L, bytes(range(L)), b"\x00" * (L - 1) + b"\x01"] + shaped + [rbytes(rng, L) for _ in range(16 * scale)]
             for h in hashes:
                 check_kind(sym, net, P, kind, h, rec)
         for se in [1, 2, N - 1] + [rng.randrange(1, N) for _ in range(2 * scale)]:
